@@ -143,7 +143,7 @@ func init() {
 				if f := r.Fn(ex + "execLocalTx"); f != nil {
 					c := f.Ctx()
 					found := false
-					ast.Inspect(f.Body(), func(x ast.Node) bool {
+					core.InspectBody(f, func(x ast.Node) bool {
 						if call, ok := x.(*ast.CallExpr); ok && core.ShortName(core.Callee(c.Info, call)) == ex+"checkKV" && len(call.Args) == 2 {
 							found = true
 							label := "execLocalTx checkKV(memset, kvs) arguments"
@@ -190,7 +190,7 @@ func init() {
 				core.LiveReturn{Fn: "executor.isAllowLocalKey2", Sentinels: []string{"types.ErrLocalPrefix", "types.ErrLocalKeyLen"}}.Check(r)
 				// the length test protects the two index expressions and rejects keys that are too short
 				core.RejectWhen{Fn: "executor.isAllowLocalKey2", Name: "len(key) <= minkeylen",
-					L: core.And(core.Mentions("builtin:len", "param:2")), R: core.Not(core.Mentions("param:2")), Rel: token.LEQ, Sentinel: "types.ErrLocalKeyLen"}.Check(r)
+					L: core.And(core.Mentions("builtin:len", "param:2")), R: core.Not(core.MentionsDirect("param:2")), Rel: token.LEQ, Sentinel: "types.ErrLocalKeyLen"}.Check(r)
 				core.RejectWhen{Fn: "executor.isAllowLocalKey2", Name: "key lacks the local prefix",
 					BoolAtom: core.CallAtom([]string{"bytes.HasPrefix"}, core.IsObj("param:2"), core.IsObj("types.LocalPrefix")), RejectVal: false, Sentinel: "types.ErrLocalPrefix"}.Check(r)
 				core.RejectWhen{Fn: "executor.isAllowLocalKey2", Name: "key lacks the executor name after the prefix",
@@ -280,7 +280,7 @@ func fillsFromAll(r *Run, fn string, param int) {
 	c := f.Ctx()
 	ok := false
 	var pos token.Pos
-	ast.Inspect(f.Body(), func(x ast.Node) bool {
+	core.InspectBody(f, func(x ast.Node) bool {
 		rs, isR := x.(*ast.RangeStmt)
 		if !isR || !core.IsObj(fmt.Sprintf("param:%d", param))(c, rs.X) {
 			return true
